@@ -26,7 +26,7 @@ fn plan(cfg: &RunCfg) -> EncPlan {
     let mut p = EncPlan::new(&FORMS);
     p.len_max = 249;
     p.len_reps = cfg.pick(2, 100) as u32;
-    p.random_per_form = cfg.pick(20_000, 1_000_000);
+    p.random_per_form = cfg.pick(40_000, 1_000_000);
     p.param_sweep_reps = cfg.pick(4, 100) as u32;
     p
 }
@@ -152,7 +152,7 @@ fn run(cfg: &RunCfg) -> Report {
         rep.evals(n_done);
         rep.class_n("iana-id-sweep", n_done);
     } else {
-        let n = cfg.n(60_000);
+        let n = cfg.n(400_000);
         for _ in 0..n {
             let v = rng.next() as u32;
             iana(v, &mut rep, &mut rng);
